@@ -390,6 +390,13 @@ Definition inside_count (dr : drivers) (b : sbit) : nat :=
 Definition driver_count (dr : drivers) (w : wire) (i : Z) : nat :=
   ((if is_input w then 1 else 0) + inside_count dr (BW (w_name w) i))%nat.
 
+(* every bit a cell port or a connection of the module mentions *)
+Definition mod_refs (m : module) : list sbit :=
+  flat_map (fun c => flat_map (fun ns => sig_bits (mod_wires m) (snd ns)) (c_conns c)) (mod_cells m) ++
+  flat_map (fun lr => sig_bits (mod_wires m) (fst lr) ++ sig_bits (mod_wires m) (snd lr)) (mod_conns m).
+(* the top module is the one carrying `attribute \top` *)
+Definition is_top (m : module) : bool := existsb (fun a => String.eqb (fst a) "\top"%string) (mod_attrs m).
+
 (* ------------------------------------------------------------------ the property, per module *)
 Record WfModule (ex : list fspec) (d : doc) (m : module) : Prop := {
   (* names are unique within a module: wires, memories, cells and processes share one namespace *)
@@ -413,10 +420,17 @@ Record WfModule (ex : list fspec) (d : doc) (m : module) : Prop := {
                   forall i, 0 <= i < w_width w -> driver_count (mod_drivers ex d m) w i = 1%nat;
   (* inputs are never driven from inside *)
   wf_inputs_free : forall w, In w (mod_wires m) -> is_input w = true ->
-                   forall i, 0 <= i < w_width w -> inside_count (mod_drivers ex d m) (BW (w_name w) i) = 0%nat
+                   forall i, 0 <= i < w_width w -> inside_count (mod_drivers ex d m) (BW (w_name w) i) = 0%nat;
+  (* bidirectional port wires are exempt from the driver rule, but below the top every one of their bits is
+     connected to something (a module only has an I/O-port wire for the port bits it or its submodules use) *)
+  wf_inout_used : is_top m = false -> forall w, In w (mod_wires m) -> is_inout w = true ->
+                  forall i, 0 <= i < w_width w -> In (BW (w_name w) i) (mod_refs m)
 }.
 
 Definition bit_range (w : wire) : list Z := zrange 0 (Z.to_nat (w_width w)).
+Definition inout_used_b (refs : list sbit) (ws : list wire) : bool :=
+  forallb (fun w => if is_inout w then forallb (fun i => memb sbit_eqb (BW (w_name w) i) refs) (bit_range w)
+                    else true) ws.
 
 Definition one_driver_b (dr : drivers) (ws : list wire) : bool :=
   forallb (fun w => if is_inout w then true
@@ -441,7 +455,8 @@ Definition module_checks (ex : list fspec) (d : doc) (m : module) : list bool :=
     forallb (fun p => forallb (pair_ok ws) (proc_assigns p)) (mod_procs m);
     forallb (fun p => forallb (switch_ok ws) (proc_switches p)) (mod_procs m);
     one_driver_b dr ws;
-    inputs_free_b dr ws ].
+    inputs_free_b dr ws;
+    (if is_top m then true else inout_used_b (mod_refs m) ws) ].
 Definition wf_module (ex : list fspec) (d : doc) (m : module) : bool :=
   forallb (fun b => b) (module_checks ex d m).
 
